@@ -12,7 +12,10 @@ and 2-parameter patterns for every component form.  Every input of the plan (eac
 line / in a --config file, plus value, layout, option style, config placement and as_positional variations;
 sub-command levels selected by their tokens or by explicit "subcommand" keys of the config, alone and next to
 sections of siblings; the settings of one path distributed over TWO config files, the second one given at the top
-level, at an intermediate sub-command level or at the component's own level) is
+level, at an intermediate sub-command level or at the component's own level; round 4: zero values 0 / '' / false /
+[] / {}, values containing '=' and '.', dict items and dataclass fields given one by one as --name.key=value, inputs
+under set_parsing_settings(parse_optionals_as_positionals=True) with options given as extra positionals, and
+two-call histories in one process with relative --config paths after valid / rejected first calls) is
 run through the real ``auto_cli(components, args=[...])``.  The generated callees log
 what they are called with; the log is compared with the binding computed from the signature alone.
 """
@@ -39,7 +42,8 @@ META = {
     "level_note": "Trusted: the 25-line rule that maps an assignment to a command line (required non-Optional "
     "parameters are positionals in signature order when as_positional=True, everything else is --name; a "
     "dataclass-typed parameter is never positional, its fields are --name.field; positional "
-    "tokens are consumed in order), two valid values and two defaults per type hint, CPython's own binding of the "
+    "tokens are consumed in order; under parse_optionals_as_positionals extra positionals go in order to the options "
+    "of the leaf parser), two valid values, a zero value and two defaults per type hint, CPython's own binding of the "
     "call the library makes. Bounded by parameter count and the type alphabet; parameter names are p0.. (no clashes "
     "with --config / --help / sub-command names).",
     "design_ref": "DESIGN.md §5 C12",
@@ -128,6 +132,8 @@ def _sources(stages, inp):
             ch = inp["assign"][si][i][0]
             if ch == "a":
                 src = "argv-positional" if gen.is_positional(p, inp["as_pos"]) else "argv-option"
+            elif ch == "p":  # an option given as an extra positional (parse_optionals_as_positionals)
+                src = "argv-extra-positional"
             elif ch in "cd":  # first / second config file
                 src = "config"
             elif gen.is_required(p):
@@ -180,27 +186,185 @@ def judge(program, mod, inp, cfg_dir, seen=None):
     if b is None:
         return "inexpressible", [], []
     if seen is not None:
-        key = json.dumps([b["argv"], b["files"], inp["as_pos"]], sort_keys=True)
+        key = json.dumps([b["argv"], b["files"], inp["as_pos"], inp.get("optpos"), inp.get("hist"), inp.get("relcfg")], sort_keys=True)
         if key in seen:
             return "same-command-line-as-an-earlier-input", [], []
         seen.add(key)
     global _cfg_serial
-    argv, paths = [], []
     modname = gen.module_name(program)  # class_path values name classes of the generated module
-    for content in b["files"]:
-        _cfg_serial += 1  # always a new file: truncating an existing one is far more expensive than creating one
-        paths.append(os.path.join(cfg_dir, f"cfg{_cfg_serial}.json"))
-        with open(paths[-1], "w") as f:
-            f.write(json.dumps(content).replace("@MOD", modname))
-    for tok in b["argv"]:
-        argv.append(paths[int(tok[4:])] if tok.startswith("@CFG") else tok.replace("@MOD", modname))
-    mod.CALLS.clear()
-    mod.TOKENS.clear()
     comps = gen.components(program, mod)
     kw = {} if inp["as_pos"] else {"as_positional": False}
-    o = outcome(jsonargparse.auto_cli, comps, args=list(argv), **kw)
-    for path in paths:
-        os.unlink(path)
+    hist = inp.get("hist")
+    first = None  # history inputs: what the earlier call of the same process is and how it ended
+    if hist:
+        # the process works in directory A; B next to it holds a same-named config file with the other values
+        b1 = _first_call(stages, inp, all_leaves)
+        if b1 is None or len(b["files"]) != 1:
+            return "inexpressible", [], []
+        _cfg_serial += 1
+        base = os.path.join(cfg_dir, f"h{_cfg_serial}")
+        dir_a, dir_b = os.path.join(base, "A"), os.path.join(base, "B")
+        os.makedirs(dir_a)
+        os.makedirs(dir_b)
+        file_dir = dir_a
+    else:
+        file_dir = cfg_dir
+
+    def write(d, name, content):
+        path = os.path.join(d, name)
+        with open(path, "w") as f:
+            f.write(json.dumps(content).replace("@MOD", modname))
+        return path
+
+    argv, paths = [], []
+    for content in b["files"]:
+        _cfg_serial += 1  # always a new file: truncating an existing one is far more expensive than creating one
+        paths.append(write(file_dir, f"cfg{_cfg_serial}.json", content))
+    for tok in b["argv"]:
+        if tok.startswith("@CFG"):
+            path = paths[int(tok[4:])]
+            argv.append(os.path.basename(path) if inp.get("relcfg") else path)
+        else:
+            argv.append(tok.replace("@MOD", modname))
+    old_cwd = os.getcwd()
+    try:
+        if inp.get("relcfg") and not hist:
+            os.chdir(file_dir)
+        if hist:
+            os.chdir(dir_a)
+            name2 = os.path.basename(paths[0])
+            write(dir_b, name2, b1["same_named"])
+            d1 = dir_a if hist["dir"] == "cwd" else dir_b
+            p1 = write(d1, "first.json", b1["files"][0])
+            if hist["path"] == "rel":
+                p1 = "first.json" if hist["dir"] == "cwd" else os.path.join("..", "B", "first.json")
+            argv1 = [p1 if t.startswith("@CFG") else t.replace("@MOD", modname) for t in b1["argv"]]
+            mod.CALLS.clear()
+            mod.TOKENS.clear()
+            o1 = outcome(jsonargparse.auto_cli, comps, args=argv1, as_positional=False)
+            first = f"first call {argv1} with {b1['files'][0]} ended {o1['kind']}" + (
+                f" {o1.get('code')}: {(o1.get('stderr') or '').strip().splitlines()[-1:]}" if o1["kind"] == "exit" else ""
+            )
+        mod.CALLS.clear()
+        mod.TOKENS.clear()
+        if inp.get("optpos"):
+            jsonargparse.set_parsing_settings(parse_optionals_as_positionals=True)
+        try:
+            o = outcome(jsonargparse.auto_cli, comps, args=list(argv), **kw)
+        finally:
+            if inp.get("optpos"):
+                jsonargparse.set_parsing_settings(parse_optionals_as_positionals=False)
+    finally:
+        os.chdir(old_cwd)
+        if hist:
+            import shutil
+
+            shutil.rmtree(base, ignore_errors=True)
+        else:
+            for path in paths:
+                os.unlink(path)
+    if hist:
+        # one root cause per kind of history: the signature names how the earlier call ended, not what it was
+        kind, devs, cover = _verdict(program, mod, inp, stages, b, o)
+        tag = "valid" if hist["first"] == "valid" else "rejected"
+        path = "relative" if inp.get("relcfg") else "absolute"
+        devs = [(f"history:{sig.split(':')[0]}:second-call-after-a-{tag}-call:{path}-config-path", f"{sig} | {detail} | {first}") for sig, detail in devs]
+        if kind == "valid":
+            cover = cover + [f"history:{hist['first']}:config-in-{hist['dir']}:{hist['path']}-path:then-{'relative' if inp.get('relcfg') else 'absolute'}-path"]
+        return kind, devs, cover
+    if program.get("pname"):
+        return _names_verdict(program, comps, kw, inp, stages, *_verdict(program, mod, inp, stages, b, o))
+    return _verdict(program, mod, inp, stages, b, o)
+
+
+_refusals = {}
+
+
+def _names_verdict(program, comps, kw, inp, stages, kind, devs, cover):
+    """Parameter-name axis: (1) a (name, form) pair that the library refuses when the parser is built - whatever the
+    command line is - with an error that names the parameter is outside the judged space ("refused-at-declaration");
+    (2) deviations are re-labelled by the class of the name and the role of the component that owns the parameter:
+    one signature per root cause."""
+    import jsonargparse
+    from mc.util import outcome
+
+    pn = program["pname"]
+    name, cls = pn["name"], gen.NAME_CLASS[pn["name"]]
+    owner = next(st for st in stages if name in st["names"])
+    role = _role(owner["callee"])
+    t = owner["sig"][owner["names"].index(name)][0]
+    word = f"{role}:{name}:{'as-positional' if inp['as_pos'] else 'as-option'}"
+    if devs and all(s.startswith("escape:") for s, _ in devs):
+        key = (gen.module_name(program), inp["as_pos"])
+        if key not in _refusals:
+            o = outcome(jsonargparse.auto_cli, comps, args=["--help"], **kw)
+            msg = o.get("message", "")
+            _refusals[key] = (
+                (o["kind"] == "ArgumentError" or (o["kind"] == "escape" and o["type"] in ("builtins.ValueError", "argparse.ArgumentError")))
+                and f"'{name}'" in msg
+                and ("already exists" in msg or "conflict" in msg or "clashes" in msg)
+            )
+        if _refusals[key]:
+            return "refused-at-declaration", [], []
+    out = []
+    for sig, detail in devs:
+        parts = sig.split(":")
+        dropped = f"missing 1 required positional argument: '{name}'" in detail or "given-value-replaced-by-default" in sig
+        if cls == "subcommand" and role == "init":
+            # one key of the parsed namespace is both the constructor's parameter and the selector of the method
+            new = "names:constructor-parameter-shares-the-key-of-the-method-selector:parameter-named-subcommand"
+        elif cls == "subcommand" and role == "class":
+            # a class without methods: the popped value is taken for the name of a method to run
+            new = "names:value-taken-for-a-method-name:class:parameter-named-subcommand"
+        elif (parts[0] == "wrong-binding" or sig.startswith("escape:builtins.TypeError")) and dropped:
+            new = f"names:value-dropped-before-the-call:{role}:parameter-named-{cls}"
+        elif cls == "like-Namespace-attribute" and t == "dict" and ("Got value: Namespace(" in detail or "required-but-not-included" in sig):
+            new = f"names:valid-input-rejected:parameter-named-{cls}:{t}"
+        else:
+            new = f"names:{parts[0]}{':' + parts[1] if parts[0] == 'escape' else ''}:{role}:parameter-named-{cls}:{t}"
+        out.append((new, f"{sig} | parameter {name!r} ({gen.TYPES[t][0]}) of the {role} | {detail}"))
+    if kind == "valid" and not devs and cls == "neutral-control":
+        cover = cover + [f"names:control-agrees:{word}:{c}" for c in cover if c.startswith(t + ":")]
+    return kind, out, cover
+
+
+def _first_call(stages, inp, all_leaves):
+    """The earlier call of a history input, derived from the same leaf: everything in one top-level config with the
+    OTHER values (as_positional=False, so every parameter is an option); `missing`: without the first required
+    parameter; `rejected-config`: the file also has a key that nothing accepts; `mistyped-config`: the first parameter has
+    a value its type refuses.  same_named = the valid variant, put
+    under the name of the second call's file into the other directory."""
+    hist = inp["hist"]
+    a1 = gen._all(stages, "c", 1)
+    valid = gen.build(stages, gen._inp(inp["sel"], a1, as_pos=False), all_leaves)
+    if valid is None or len(valid["files"]) != 1:
+        return None
+    if hist["first"] == "missing":
+        si, i = gen._required(stages)[0]
+        a1[si][i] = ["-", 0]
+    b1 = gen.build(stages, gen._inp(inp["sel"], a1, as_pos=False), all_leaves)
+    if b1 is None or len(b1["files"]) != 1:
+        return None
+    if hist["first"] == "rejected-config":
+        b1["files"][0] = dict(b1["files"][0], zz_nobody_accepts_this=1)
+    if hist["first"] == "mistyped-config":
+        # the value of the first parameter of the path is one that none of the types accepts (a dict holding a list)
+        node = b1["files"][0] = json.loads(json.dumps(b1["files"][0]))
+        for st in stages:
+            if st["token"] is not None and st["token"] in node:
+                node = node[st["token"]]
+            if st["sig"]:
+                node[st["names"][0]] = {"zz": [1]}
+                break
+    b1["same_named"] = valid["files"][0]
+    return b1
+
+
+def _verdict(program, mod, inp, stages, b, o):
+    """Compare what the generated callees logged (and how auto_cli ended) with the binding derived from the signature."""
+    from mc.util import tcanon
+
+    form = program["form"]
     calls = list(mod.CALLS)
     tokens = list(mod.TOKENS)
     srcs = _sources(stages, inp)
@@ -208,7 +372,7 @@ def judge(program, mod, inp, cfg_dir, seen=None):
     chans = "+".join(sorted({s for _, s in srcs.values() if s.startswith(("argv", "config"))})) or "nothing-given"
     devs = []
     exp = b["expect"]
-    shown = f"argv={b['argv']} files={b['files']}"
+    shown = f"argv={b['argv']} files={b['files']}" + (" under parse_optionals_as_positionals=True" if inp.get("optpos") else "")
     # what this case exercises, by the plan (independent of what the implementation does with it)
     kind = "valid" if exp["kind"] == "ok" else "missing-required"
     cover = [f"{p[0]}:{src}" for p, src in srcs.values()] if kind == "valid" else []
@@ -219,7 +383,15 @@ def judge(program, mod, inp, cfg_dir, seen=None):
                 + ("nested" if len(stages) >= 3 else "first-level")
                 + (":with-sibling-section" if inp.get("sib") is not None else ":alone")
             )
-        if form in ("list", "dict", "mixed") and any(p[0] in ("dc", "optdc", "cls", "optcls") for p, _ in srcs.values()):
+        if inp.get("optpos"):
+            cover.append("optionals-as-positionals:" + ("extra-positionals" if any(s == "argv-extra-positional" for _, s in srcs.values()) else "ordinary-input"))
+            if any(c[1] == 2 and gen.is_positional(p, inp["as_pos"]) and p[0] in gen.ZERO for row, st in zip(inp["assign"], stages) for c, p in zip(row, st["sig"])) and "optionals-as-positionals:extra-positionals" in cover:
+                cover.append("optionals-as-positionals:extra-positionals-after-a-zero-valued-positional")
+        for row, st in zip(inp["assign"], stages):
+            for c, p in zip(row, st["sig"]):
+                if c[1] == 2 and c[0] in "acp" and p[0] in gen.ZERO:
+                    cover.append(f"zero-value:{p[0]}:{'config' if c[0] == 'c' else 'argv'}")
+        if form in ("list", "dict", "mixed") and any(p[0] in gen.CLASS_TYPED for p, _ in srcs.values()):
             cover.append("class-typed-parameter-in-a-list-or-dict-of-components")
         if inp.get("cfg2") is not None:
             lvl = inp["cfg2"]
@@ -462,10 +634,53 @@ def space(quick):
         klass([(1, 1)], "none:two", ["shared"], (2,), max_dev=0, tag2="-two-configs", **two)
         klass([(0, 2)], "none:two", None, (2,), form="mixed", max_dev=dev, tag2="-reduced-two-configs", **two)
 
+    def zero_optpos_history():
+        """Round 4: zero values (0, '', false, [], {}), the parsing setting parse_optionals_as_positionals, and
+        histories of two calls in one process with relative --config paths.  Plan "none" + suffixes: the other inputs
+        of these programs are in the blocks above."""
+        r4 = {"mark": "round4"}
+        flat("func", 1, "none:zero:optpos", tag="-zero-optpos", **r4)
+        flat("func", 2, "none:zero:optpos", max_dev=1 if quick else None, tag="-reduced-zero-optpos" if quick else "-zero-optpos", **r4)
+        flat("list", 1, "none:zero:optpos", tag="-zero-optpos", **r4)
+        flat("dict", 1, "none:deep:zero:optpos", tag="-zero-optpos", **r4)
+        flat("dataclass", 1, "none:zero:optpos", tag="-zero-optpos", **r4)
+        klass([(0, 1), (1, 0)], "none:zero:optpos", ["shared"], (2,), tag2="-zero-optpos", **r4)
+        klass([(0, 2)], "none:optpos", ["shared"], (2,), max_dev=0 if quick else 1, tag2="-optpos", **r4)
+        klass([(0, 1)], "none:zero:optpos", None, None, form="mixed", tag2="-zero-optpos", **r4)
+        h4 = {"mark": "round4-history"}
+        flat("func", 1, "none:hist", max_dev=0, tag="-reduced-history", **h4)
+        flat("func", 2, "none:hist", max_dev=0, tag="-reduced-history", **h4)
+        flat("list", 1, "none:hist", max_dev=0, tag="-reduced-history", **h4)
+        flat("dict", 1, "none:deep:hist", max_dev=0, tag="-reduced-history", **h4)
+        klass([(0, 1), (1, 0)], "none:hist", ["shared"], (2,), max_dev=0, tag2="-history", **h4)
+        klass([(0, 1)], "none:hist", None, None, form="mixed", max_dev=0, tag2="-reduced-history", **h4)
+
+    def names_axis():
+        """Parameter-name axis: ONE parameter of the enumerated component carries a name the library itself uses
+        (gen.NAMES, with two neutral control names) x component form and position x type x {default, required}."""
+        other_after, other_before = ["int", 1, "K"], ["int", 0, "P"]
+        for name in gen.NAMES:
+            for t in gen.NAME_TYPES:
+                for d in (1, 0):
+                    me = [t, d, "P"]
+                    progs = [
+                        ("func/1", {"form": "func", "sig": [me]}, {"at": "leaf", "i": 0}),
+                        ("func/2-first", {"form": "func", "sig": [me, other_after]}, {"at": "leaf", "i": 0}),
+                        ("func/2-second", {"form": "func", "sig": [other_before, me]}, {"at": "leaf", "i": 1}),
+                        ("class/1+1-constructor", {"form": "class", "init": [me], "meth": [["int", 1, "P"]], "naming": "distinct", "nmeth": 1}, {"at": "init", "i": 0}),
+                        ("class/1+1-method", {"form": "class", "init": [["int", 1, "P"]], "meth": [me], "naming": "distinct", "nmeth": 1}, {"at": "meth", "i": 0}),
+                        ("list/1", {"form": "list", "sig": [me]}, {"at": "leaf", "i": 0}),
+                        ("dict/1", {"form": "dict", "sig": [me]}, {"at": "leaf", "i": 0}),
+                        ("plainclass/1", {"form": "plainclass", "sig": [me]}, {"at": "leaf", "i": 0}),
+                    ]
+                    for where, prog, pn in progs:
+                        prog["pname"] = dict(pn, name=name)
+                        out.append((f"names/{where}", prog, "none:deep:names" if prog["form"] == "dict" else "none:names"))
+
     if quick:
         flat("func", 1, "full")
         flat("func", 2, "full")
-        flat("func", 3, "lean3:first1")
+        flat("func", 3, "lean3:first2")
         flat("list", 1, "full:sel")
         flat("list", 2, "lean3")
         flat("dataclass", 1, "full")
@@ -486,6 +701,8 @@ def space(quick):
             flat(form, 1, "full", flip=1)
         klass([(0, 1), (1, 0)], "full", ["shared"], (2,), flip=1)
         second_alphabet_and_two_configs()
+        zero_optpos_history()
+        names_axis()
     else:
         flat("func", 1, "full")
         flat("func", 2, "full")
@@ -516,11 +733,22 @@ def space(quick):
         flat("func", 2, "full", flip=1)
         klass([(0, 1), (1, 0)], "full", ["shared"], (2,), flip=1)
         second_alphabet_and_two_configs()
+        zero_optpos_history()
+        names_axis()
     return out
 
 
 def explore(ctx):
     items = space(ctx.quick)
+    # development switch: VERIF_C12_ONLY=<substring of a block name> runs only those blocks (e.g. "names/"); the run
+    # then says so in caps_hit, is not exhaustive, and the guards of the other blocks are not evaluated
+    only = os.environ.get("VERIF_C12_ONLY")
+    if only:
+        items = [it for it in items if only in it[0]]
+    names_stat = {}  # (form and position, name) -> [programs, judged runs, refused runs, deviating runs]
+    for name, p, _ in items:
+        if p.get("pname"):
+            names_stat[(name[len("names/"):], p["pname"]["name"])] = [0, 0, 0, 0]
     blocks = {}
     for name, _, plan in items:
         b = blocks.setdefault(f"{name} [{plan}]", {"programs": 0, "cases": 0})
@@ -538,6 +766,12 @@ def explore(ctx):
             if k in ("valid", "missing-required"):
                 blocks[name]["cases"] += v
         cover.update(out["cover"])
+        if out["program"].get("pname"):
+            ns = names_stat[(name.split(" ")[0][len("names/"):], out["program"]["pname"]["name"])]
+            ns[0] += 1
+            ns[1] += out["n"].get("valid", 0) + out["n"].get("missing-required", 0)
+            ns[2] += out["n"].get("refused-at-declaration", 0)
+            ns[3] += out["n"].get("deviating", 0)
         for sig, inp, detail in out["devs"]:
             ctx.deviation(sig, {"program": out["program"], "input": inp}, detail)
         form = out["program"]["form"]
@@ -548,7 +782,24 @@ def explore(ctx):
         ctx.count("cases_" + k, v)
     judged = totals.get("valid", 0) + totals.get("missing-required", 0)
     sig_counts = {n: sum(1 for _ in gen.signatures(n)) for n in (1, 2, 3)}
+    refused_pairs = sorted(k for k, v in names_stat.items() if v[2] and not v[1])
+    partly_refused = sorted(k for k, v in names_stat.items() if v[2] and v[1])
+    names_evidence = {
+        "names": gen.NAME_CLASSES,
+        "types": gen.NAME_TYPES,
+        "forms": sorted({k[0] for k in names_stat}),
+        "programs": sum(v[0] for v in names_stat.values()),
+        "judged_runs": sum(v[1] for v in names_stat.values()),
+        "deviating_runs": sum(v[3] for v in names_stat.values()),
+        "runs_refused_at_declaration": sum(v[2] for v in names_stat.values()),
+        "refused_pairs": {n: [f for f, n2 in refused_pairs if n2 == n] for n in sorted({n for _, n in refused_pairs})},
+        "pairs_refused_only_for_one_as_positional_setting": [list(k) for k in partly_refused],
+        "rule": "a (name, form) pair is refused at declaration when auto_cli raises ValueError / ArgumentError naming the "
+        "parameter for every command line, also for --help (i.e. while the parser is built); such pairs are not judged",
+    }
     ctx.cover(
+        names_refused_at_declaration=len(refused_pairs),
+        names_axis=names_evidence,
         evaluations=judged,
         states=n_programs,
         transitions=judged,
@@ -560,8 +811,8 @@ def explore(ctx):
         "binds or misses at least one value (valid: the callee's logged arguments, call count and return value are "
         "compared; missing-required: exit status and absence of calls are compared); states = distinct generated "
         "programs (modules written and imported), transitions = auto_cli calls",
-        exhaustive=True,
-        caps_hit=[],
+        exhaustive=not only,
+        caps_hit=[f"VERIF_C12_ONLY={only}: only the blocks whose name contains it were run"] if only else [],
         bounds={
             "types": {k: gen.TYPES[k][0] for k in gen.TYPE_ORDER},
             "second_alphabet": {k: gen.TYPES[k][0] for k in gen.X_ORDER},
@@ -595,6 +846,25 @@ def explore(ctx):
                 "parser level the second file can be given at (0 = second --config at the top level, an intermediate "
                 "sub-command level, the component's own level); per (distribution, level): everything given with "
                 "as_positional=False, the same with as_positional=True, only the required parameters",
+                ":zero": "every parameter given its zero value (0, '', 0.0, false, [], {}; enum keeps its ordinary value): all "
+                "on the command line (both option styles, as_positional True / False), all in the config, one parameter at a "
+                "time on the command line",
+                ":optpos": "inputs run under set_parsing_settings(parse_optionals_as_positionals=True), as_positional True / "
+                "False: all on the command line (ordinary / zero values), all in the config, and for k = 1 .. number of "
+                "options of the leaf level the first k options as extra positionals x the other options omitted (ordinary / "
+                "zero values) / by name (zero values) / in the config, once with the other values and options first",
+                ":hist": "two auto_cli calls in one process working in a directory A (a directory B next to it holds a "
+                "same-named config file with other values): first call valid / a required parameter missing / config "
+                "file with a key nobody accepts / config file with a value the parameter's type refuses, its config file in A or B, path relative or absolute; second call (the "
+                "judged one) everything in a config file of A given by a relative or an absolute path",
+                ":first2": "as :first1, and the input 'required ones in --config and nothing else' only for the type vectors "
+                "that differ from int in at most two positions (169 of 512; 'all on argv' for every signature)",
+                ":names": "parameter-name axis: every parameter on the command line (as_positional True / False), every "
+                "parameter in the config, only the required ones (the named parameter keeps its default); programs: ONE "
+                "parameter named from the alphabet of names the library itself uses (names_axis.names) x {int, str, "
+                "Dict[str,int]} x {default, required} x {function/1, function/2 first / second parameter, class "
+                "constructor, class method, first of a list of functions, every leaf of a nested dict of functions, class "
+                "without methods}",
                 "none": "no inputs besides those of the suffixes (the programs' other inputs are in another block)",
                 ":deep": "dict form: only the leaf at depth 3",
                 ":first": "lean3 with only the first required parameter omitted (instead of each in turn)",
@@ -604,7 +874,8 @@ def explore(ctx):
             "reduction": "dict form with 2 parameters and classes with 2+0 / 0+2 (__init__ + method) parameters: type "
             "vectors that differ from int in at most 1 position (15 of 64); 3-parameter functions: the input with the "
             "first required parameter omitted only for the type vectors that differ from int in at most 1 position "
-            "(22 of 512; the two valid inputs for all 13312 signatures); second alphabet: one position of the "
+            "(22 of 512), the input 'required ones in the config' only for those that differ in at most 2 positions (169 "
+            "of 512), 'all on argv' for all 13312 signatures; second alphabet: one position of the "
             "signature, int elsewhere; two-config blocks: type vectors that differ from int in at most 1 position "
             "(function, list of functions) or int only (dict, class 0+2 and 1+1, function + class); everything else "
             "unreduced"
@@ -622,6 +893,52 @@ def explore(ctx):
         "signature order, every other parameter is the option --<name> (the documented auto_cli interface)"
     )
     ctx.assume("positional tokens are consumed in order; inputs that cannot be written down under this rule are skipped")
+    # vacuity guards of the parameter-name axis
+    planned = {(f, n) for f in ("func/1", "func/2-first", "func/2-second", "class/1+1-constructor", "class/1+1-method", "list/1", "dict/1", "plainclass/1") for n in gen.NAMES}
+    if not only or only in "names/":
+        unexecuted = sorted(k for k in planned if names_stat.get(k, [0, 0, 0, 0])[0] != 2 * len(gen.NAME_TYPES) or not (names_stat[k][1] + names_stat[k][2]))
+        ctx.require(
+            set(names_stat) == planned and not unexecuted,
+            "name axis: every planned (name, component form and position) pair ran all its programs (3 types x {default, "
+            "required}) and each was either judged or refused at declaration" + (f"; not so: {unexecuted[:6]}" if unexecuted else ""),
+        )
+        controls = gen.NAME_CLASSES["neutral-control"]
+        bad = sorted(k for k, v in names_stat.items() if k[1] in controls and (v[2] or v[3] or not v[1]))
+        needn = {
+            f"names:control-agrees:{r}:{n}:{ap}:{t}:{src}"
+            for n in controls
+            for t in gen.NAME_TYPES
+            for r, ap, src in (
+                ("function", "as-positional", "argv-positional"), ("function", "as-option", "argv-option"), ("function", "as-positional", "config"),
+                ("function", "as-positional", "default"), ("init", "as-positional", "argv-positional"), ("init", "as-positional", "config"),
+                ("init", "as-positional", "default"), ("method", "as-positional", "argv-positional"), ("method", "as-option", "argv-option"),
+                ("method", "as-positional", "config"), ("method", "as-positional", "default"), ("class", "as-positional", "config"),
+            )
+        }
+        lackingn = sorted(needn - cover)
+        ctx.require(
+            not bad and not lackingn,
+            "name axis: the neutral control names are never refused and bind correctly for every type through the command "
+            "line, the config and the default, as parameter of a function, a constructor, a method and a plain class"
+            + (f"; deviating controls {bad[:4]}" if bad else "") + (f"; missing: {lackingn[:6]}" if lackingn else ""),
+        )
+        ctx.require(
+            0 < len(refused_pairs) < len(planned) // 2 and names_evidence["judged_runs"] > 1500,
+            "name axis: some (name, form) pairs are refused at declaration, most are judged (more than 1500 judged runs)",
+        )
+        unexpected = sorted(
+            k
+            for k in refused_pairs + partly_refused
+            if gen.NAME_CLASS[k[1]] not in ("config", "like-a-built-in-option") and k != ("class/1+1-constructor", "subcommand")
+        )
+        ctx.require(
+            not unexpected,
+            "name axis: only names of options every parser already has (config, help, print_config) and a constructor "
+            "parameter 'subcommand' next to method sub-commands are refused at declaration; a refusal of another name would "
+            "silently shrink the judged space" + (f"; refused: {unexpected[:6]}" if unexpected else ""),
+        )
+    if only:
+        return
     # vacuity guards
     ctx.require(sig_counts == {1: 32, 2: 704, 3: 13312}, "the generator yields 32 / 704 / 13312 legal signatures")
     ctx.require(
@@ -650,6 +967,24 @@ def explore(ctx):
         "every source, also as a parameter of one of several components; the settings of one component come from two "
         "config files given at the same level, at an intermediate level and at the component's level"
         + (f"; missing: {lackingx}" if lackingx else ""),
+    )
+    need4 = {f"zero-value:{t}:{c}" for t in gen.ZERO for c in ("argv", "config")}
+    need4 |= {f"{t}:argv-extra-positional" for t in gen.TYPE_ORDER}
+    need4 |= {f"optionals-as-positionals:{w}" for w in ("ordinary-input", "extra-positionals", "extra-positionals-after-a-zero-valued-positional")}
+    need4 |= {
+        f"history:{f}:config-in-{d}:{p}-path:then-{t}-path"
+        for f in gen.HISTORY_FIRST
+        for d in ("cwd", "other")
+        for p in ("rel", "abs")
+        for t in ("relative", "absolute")
+    }
+    lacking4 = sorted(need4 - cover)
+    ctx.require(
+        not lacking4,
+        "every type with a zero value (0, '', 0.0, false, [], {}) is given it on the command line and in the config; "
+        "under parse_optionals_as_positionals every type is bound from an extra positional, also behind a zero-valued "
+        "positional; second calls with relative and absolute --config paths follow valid, incomplete and rejected first "
+        "calls whose config file lies in the working directory / in another one" + (f"; missing: {lacking4}" if lacking4 else ""),
     )
     need2 = {f"method:{k}:{w}" for k in gen.KINDS for w in ("own", "inherited")} | {"init:own", "init:inherited"}
     need2 |= {f"select-by-config:{d}:{w}" for d in ("first-level", "nested") for w in ("alone", "with-sibling-section")}
